@@ -239,15 +239,15 @@ func (i *Int) Sub(a, b kyber.Scalar) kyber.Scalar {
 
 // Neg sets the target to -a mod M.
 func (i *Int) Neg(a kyber.Scalar) kyber.Scalar {
-	newNat := new(compatible.Int)
 	ai, ok := a.(*Int)
 	if !ok {
 		panic("invalid argument")
 	}
-	newNat.Int = *ai.M.Nat()
-	i.V.Set(newNat)
+	// 0 - a mod M, computed into a fresh value: a may be the receiver,
+	// and the result must stay reduced for a = 0.
+	zero := compatible.NewInt(0).Mod(compatible.NewInt(0), ai.M)
 	i.M = ai.M
-	i.V = *compatible.NewInt(0).Sub(&i.V, &ai.V, i.M)
+	i.V = *compatible.NewInt(0).Sub(zero, &ai.V, i.M)
 
 	return i
 }
